@@ -71,20 +71,10 @@ func (o *vOp) refRun(r *vRefLRU) bool {
 
 func vSameInt(a, b int) bool { return a == b }
 
-// vMatches: the real final state abstracts to ref (no assertion, a predicate).
-func vMatches(l *LRUCache, ref *vRefLRU) bool {
-	if len(l.nodeMap) != len(ref.items) || l.list.Len() != len(ref.items) {
-		return false
-	}
-	el := l.list.Front()
-	for i := range ref.items {
-		e, ok := l.nodeMap[ref.items[i].k]
-		if !ok || el == nil || e != el || el.Value.(int) != ref.items[i].v {
-			return false
-		}
-		el = el.Next()
-	}
-	return el == nil
+// vMatches: the final state as the public API shows it (Len and the recency-ordered Dump; values are
+// distinct per store in these harnesses) abstracts to ref (a predicate, no assertion).
+func vMatches(dump string, n int, ref *vRefLRU) bool {
+	return n == len(ref.items) && dump == vRefDump(ref)
 }
 
 func vCopyRef(c int, items []vKV) *vRefLRU {
@@ -117,15 +107,16 @@ func vC10Two(ka, kb int) {
 	vGo(func() { a.run(l) })
 	vGo(func() { b.run(l) })
 	vJoin()
+	dump, n := l.Dump(), l.Len()
 	// some sequential order explains the results and the final state
 	r1 := vCopyRef(c, items)
 	ok1 := a.refRun(r1)
 	ok1 = b.refRun(r1) && ok1
-	ok1 = ok1 && vMatches(l, r1)
+	ok1 = ok1 && vMatches(dump, n, r1)
 	r2 := vCopyRef(c, items)
 	ok2 := b.refRun(r2)
 	ok2 = a.refRun(r2) && ok2
-	ok2 = ok2 && vMatches(l, r2)
+	ok2 = ok2 && vMatches(dump, n, r2)
 	vAssert(ok1 || ok2, "C10 "+vOpNames[ka]+"||"+vOpNames[kb]+": results and final state agree with some sequential order")
 	vAssert(l.Len() >= 0 && l.Len() <= c, "C10 "+vOpNames[ka]+"||"+vOpNames[kb]+": capacity bound and consistency at quiescence")
 	vReach("end")
@@ -158,6 +149,7 @@ func vC10Three(ka, kb, kc int) {
 		vGo(func() { o.run(l) })
 	}
 	vJoin()
+	dump, n := l.Dump(), l.Len()
 	perms := [][]int{{0, 1, 2}, {0, 2, 1}, {1, 0, 2}, {1, 2, 0}, {2, 0, 1}, {2, 1, 0}}
 	any := false
 	for _, p := range perms {
@@ -166,7 +158,7 @@ func vC10Three(ka, kb, kc int) {
 		for _, i := range p {
 			ok = ops[i].refRun(r) && ok
 		}
-		any = any || (ok && vMatches(l, r))
+		any = any || (ok && vMatches(dump, n, r))
 	}
 	vAssert(any, "C10 three goroutines: results and final state agree with some sequential order")
 	vAssert(l.Len() >= 0 && l.Len() <= c, "C10 three goroutines: capacity bound and consistency at quiescence")
@@ -191,6 +183,7 @@ func H_C10T_two_by_two() {
 	vGo(func() { a1.run(l); a2.run(l) })
 	vGo(func() { b1.run(l); b2.run(l) })
 	vJoin()
+	dump, n := l.Dump(), l.Len()
 	// interleavings that keep each goroutine's program order
 	orders := [][]*vOp{{a1, a2, b1, b2}, {a1, b1, a2, b2}, {a1, b1, b2, a2}, {b1, a1, a2, b2}, {b1, a1, b2, a2}, {b1, b2, a1, a2}}
 	any := false
@@ -200,7 +193,7 @@ func H_C10T_two_by_two() {
 		for _, o := range ord {
 			ok = o.refRun(r) && ok
 		}
-		any = any || (ok && vMatches(l, r))
+		any = any || (ok && vMatches(dump, n, r))
 	}
 	vAssert(any, "C10 2x2: results and final state agree with some interleaving that respects program order")
 	vReach("end")
